@@ -141,6 +141,7 @@ IMPL = {
     "nc.run": run,
     "nc.run2": run2,
     "nc.from_chord": lambda sh: state(NoteContainer().from_chord_shorthand(sh)),
+    "nc.from_interval_short": lambda nm, o, sh, up: state(NoteContainer().from_interval(Note(nm, o), sh, up)),
     "nc.from_interval": lambda nm, o, sh, up: state(NoteContainer().from_interval_shorthand(Note(nm, o), sh, up)),
     "nc.from_progression": from_progression,
     "nc.misc": lambda items: (lambda nc, other: [len(nc), Note("C", 4) in nc, nc == other, nc == NoteContainer([Note(x[0], x[1]) for x in items[:-1]]),
@@ -228,6 +229,8 @@ def cases(tier, rng):
         for sh in ["1", "2", "b3", "3", "4", "#4", "5", "b6", "6", "b7", "7", "bb2", "#1", "b2", "bb3", "#5"]:
             for up in (True, False):
                 yield Case("nc.from_interval", [nm, 4, sh, up], "from_interval", kind=("interval",))
+                if sh in ("3", "b7", "5", "#4"):
+                    yield Case("nc.from_interval_short", [nm, 4, sh, up], "from_interval/shortcut", model=False, kind=("interval",))
     for key in ["C", "F#", "Eb", "a", "c#", "ab", "d", "A", "D"]:
         for num in ["I", "ii", "iii7", "IV", "V7", "bVII", "#ivdim7", "VIm7", "X", "i", "III", "vi7"]:
             yield Case("nc.from_progression", [num, key], "from_progression", kind=("prog",))
